@@ -1,9 +1,10 @@
 (* C15 — the iterators of package itertools enumerate exactly the advertised objects, once each,
    in the documented order, and then report exhaustion for ever.
-   This file contains only the property theorems of the lead's share (Product, Combinations,
-   CombinationsColex, RestrictedPrefixProduct, RestrictedPrefixPermutations), closed by [exact],
-   and their assumptions.
-   The other iterators are in Props/C15_part2.v.
+   This file contains only the property theorems of the first half (Product, Combinations,
+   CombinationsColex, RestrictedPrefixProduct, RestrictedPrefixPermutations,
+   PermutationsByPattern), closed by [exact], and their assumptions.  The other iterators are
+   in Props/C15_part2.v; that the i-th value of CombinationsColex is comb.Unrank(i, k) is
+   Props/C16_colex.v (C16_combinations_colex_is_unrank, built on the theorem below).
 
    Reading the statements: [drain next value fuel init = Some (l, e)] says that calling Next
    repeatedly from the freshly constructed iterator, copying Value after every call that
@@ -12,9 +13,9 @@
    [exhausted next e] says that every further call from e returns false.  [StronglySorted lt l]
    is "in the documented order" (and, the order being strict, "each once" — also stated as
    [NoDup l]); [In x l <-> F x] is "exactly the advertised family". *)
-From Coq Require Import List ZArith Arith Sorted.
+From Coq Require Import List ZArith Arith Bool Sorted Permutation.
 From Mamba Require Import Iter.Model Iter.Enum Iter.Lex Iter.Product Iter.ProductRP Iter.Comb Iter.Colex
-  Iter.AlgX Iter.AlgXRun Iter.AlgXFilter.
+  Iter.AlgX Iter.AlgXRun Iter.Pattern Iter.PatternRun Iter.AlgXFilter.
 Import ListNotations.
 Open Scope Z_scope.
 
@@ -94,6 +95,28 @@ Theorem C15_restricted_prefix_permutations_is_filter : forall f n,
 Proof. exact rpperm_is_filter. Qed.
 Print Assumptions C15_restricted_prefix_permutations_is_filter.
 
+(* PermutationsByPattern(n, f), for every n >= 0 and every predicate f: exactly the
+   permutations z of 0..n-1 such that f accepts the standardisation (pattern) of every non-empty
+   prefix of z, each once; no order is documented - the order produced is that of the
+   depth-first search of the documentation, i.e. the image under [dec] of the lexicographic
+   order on insertion codes (last clause); the goto machine never exhausts the fuel
+   4 * (number of nodes of the insertion tree) + 4 and never indexes out of range. *)
+Theorem C15_permutations_by_pattern : forall f n,
+  exists l e, drain (pattern_next f) pattern_value (S (length l)) (pattern_init n) = Some (l, e) /\
+    (NoDup l /\ (forall x, In x l <-> in_pattern f n x) /\ exhausted (pattern_next f) e /\
+     exists lc, l = map dec lc /\ StronglySorted lex_lt lc).
+Proof. exact pattern_enumerates. Qed.
+Print Assumptions C15_permutations_by_pattern.
+
+(* ... and it agrees, as a set, with filtering the enumeration of LexicographicPermutations(n). *)
+Theorem C15_permutations_by_pattern_is_filter : forall f n,
+  exists l e lp ep,
+    drain (pattern_next f) pattern_value (S (length l)) (pattern_init n) = Some (l, e) /\
+    drain lexperm_next lexperm_value (S (length lp)) (lexperm_init n) = Some (lp, ep) /\
+    Permutation l (filter (patok f) lp) /\ exhausted (pattern_next f) e.
+Proof. exact pattern_is_filter. Qed.
+Print Assumptions C15_permutations_by_pattern_is_filter.
+
 (* ------------------------------------------------------------------ non-vacuity *)
 
 Example C15_product_nonvacuous :
@@ -133,3 +156,22 @@ Example C15_restricted_prefix_permutations_nonvacuous :
   (exists e, drain (rpperm_next f) rpperm_value 1 (rpperm_init 3) = Some ([], e)) /\
   (exists e, drain (rpperm_next f) rpperm_value 2 (rpperm_init 0) = Some ([[]], e)).
 Proof. cbv zeta. repeat split; eexists; vm_compute; reflexivity. Qed.
+
+(* 231-avoiding permutations of 0..3 (14 of them, a Catalan number): the predicate looks at the
+   whole pattern and rejects when the last entry closes an occurrence of 231 *)
+Example C15_permutations_by_pattern_nonvacuous :
+  let f := fun a : list Z =>
+    match rev a with
+    | [] => true
+    | c :: r => negb (existsb (fun ij => match ij with (bi, bj) => (c <? bi) && (bi <? bj) end)
+                        (flat_map (fun j => map (fun i => (nth i (rev r) 0, nth j (rev r) 0)) (seq 0 j)) (seq 0 (length r))))
+    end in
+  (exists l e, drain (pattern_next f) pattern_value 15 (pattern_init 4) = Some (l, e) /\ length l = 14%nat
+     /\ In [0;1;2;3] l /\ In [3;2;1;0] l /\ ~ In [1;2;0;3] l) /\
+  std [5; 9; 2] = [1; 2; 0] /\ dec [0; 1; 0] = [1; 0; 2].
+Proof.
+  cbv zeta. split; [|split; vm_compute; reflexivity].
+  eexists. eexists. split; [vm_compute; reflexivity|]. split; [reflexivity|].
+  split; [simpl; tauto|]. split; [simpl; tauto|]. simpl. intros H.
+  repeat (destruct H as [H|H]; [discriminate|]). exact H.
+Qed.
